@@ -1,6 +1,7 @@
 (* Pinned statements of C08 (generated once by tools/mkpins.py from coq/props/C08.v, then committed). *)
 From DV Require Import Model.Base Model.NameCheck Model.Parser Model.Header Model.Readers Model.Uncompress
-  Model.Mutate Proofs.Hoare Proofs.HeaderBits Proofs.InsertLemmas Proofs.EdnsPlain props.C08.
+  Model.Mutate Model.Compress Model.Renamer Spec.PacketSpec Spec.RecordSpec Spec.PlainSpec Proofs.Hoare Proofs.HeaderBits Proofs.InsertLemmas Proofs.EdnsPlain Proofs.WalkSkip
+  Proofs.ViewAfter Proofs.InsertSpec props.C08.
 Check (C08_decompression_keeps_edns_summary : forall p v q v',
   bytes_ok p -> parse p = Ok v -> uncompress p = Ok q -> parse q = Ok v' ->
   pp_edns_count v' = pp_edns_count v /\ pp_ext_rcode v' = pp_ext_rcode v /\ pp_edns_version v' = pp_edns_version v /\
@@ -30,3 +31,23 @@ Check (C08_insert_shape : forall sec rr v it s',
     pp_packet (fst s') = firstn ins p1 ++ rr ++ skipn ins p1 /\
     (N.of_nat (length (pp_packet v) + length rr) <= 8192)%N /\ snd s' = it).
 Print Assumptions C08_insert_shape.
+Check (C08_recompute_view : forall v it s', pp_maybe_compressed v = true -> m_recompute (v, it) = (s', Ok tt) ->
+  exists u f, uncompress (pp_packet v) = Ok u /\ parse u = Ok f /\ view_of_parse (fst s') f u /\
+              pp_maybe_compressed (fst s') = false /\ snd s' = it).
+Print Assumptions C08_recompute_view.
+Check (C08_rename_view : forall target source sfx v it s', m_rename target source sfx (v, it) = (s', Ok tt) ->
+  exists r f, renamer_rename v target source sfx = Ok r /\ parse r = Ok f /\ view_of_parse (fst s') f r /\
+              pp_maybe_compressed (fst s') = true /\ snd s' = it).
+Print Assumptions C08_rename_view.
+Check (C08_insert_view : forall p v it sec rx s',
+  bytes_ok p -> parse p = Ok v -> plain_rr_ok rx -> sec = SAnswer \/ sec = SNameServers \/ sec = SAdditional ->
+  (sec <> SAdditional -> exists w, u16_at p 2 w /\ N.land w 32768 = 32768%N) ->
+  m_insert_rr sec (plain_record rx) (v, it) = (s', Ok tt) ->
+  exists f, parse (pp_packet (fst s')) = Ok f /\
+    pp_offset_question (fst s') = pp_offset_question f /\ pp_offset_answers (fst s') = pp_offset_answers f /\
+    pp_offset_nameservers (fst s') = pp_offset_nameservers f /\ pp_offset_additional (fst s') = pp_offset_additional f /\
+    pp_offset_edns (fst s') = pp_offset_edns f /\ pp_edns_count (fst s') = pp_edns_count f /\
+    pp_ext_rcode (fst s') = pp_ext_rcode f /\ pp_edns_version (fst s') = pp_edns_version f /\
+    pp_ext_flags (fst s') = pp_ext_flags f /\ pp_max_payload (fst s') = pp_max_payload f /\
+    pp_maybe_compressed (fst s') = false /\ pp_cached (fst s') = None).
+Print Assumptions C08_insert_view.
